@@ -210,6 +210,10 @@ class Ctx:
     def minimum(self, a, b):
         if self.sym: return SReal(z3.If(T(a) <= T(b), T(a), T(b)))
         return min(a, b)
+    def maximum1(self, a):
+        """max(1, a)"""
+        if self.sym: return SReal(z3.If(T(a) >= 1, T(a), z3.RealVal(1)))
+        return max(1, a)
     def And(self, *cs):
         if self.sym: return SBool(z3.And(*[_b(c) for c in cs]))
         return all(bool(c) for c in cs)
